@@ -404,8 +404,10 @@ Fixpoint vruns_bytes (prev : option vrun) (rs : list vrun) : str :=
   | [] => []
   | r :: rest => vrun_bytes prev (match rest with n :: _ => Some n | [] => None end) r ++ vruns_bytes (Some r) rest
   end.
+(* strings.ReplaceAll(l.VoiceName, ">", "&gt;"): a '>' would close the voice tag inside the name *)
+Definition voice_esc (v : str) : str := flat_map (fun c => if c =? 62 then [38;103;116;59] else [c]) v.
 Definition vline_bytes (l : vline) : str :=
-  (match vl_voice l with [] => [] | v => [60;118;32] ++ v ++ [62] end) ++ vruns_bytes None (vl_runs l) ++ [10].
+  (match vl_voice l with [] => [] | v => [60;118;32] ++ voice_esc v ++ [62] end) ++ vruns_bytes None (vl_runs l) ++ [10].
 
 Definition setting (key : str) (v fb : str) : str :=
   match v with
@@ -460,18 +462,21 @@ Fixpoint vitems_bytes (k : nat) (l : list vitem) : str :=
   end.
 Definition tsmap_string (m : Z * Z) : str :=
   p_tsmap ++ [61;76;79;67;65;76;58] ++ format_vtt (fst m) ++ [44;77;80;69;71;84;83;58] ++ itoa_z (snd m).
-(* [style_order], [region_order]: the keys of the two maps in the order the runtime ranges over them *)
+(* [style_order], [region_order]: ALL the keys of the maps s.Styles and s.Regions, in the order the runtime ranges over
+   them.  [vd_styles], [vd_regions] give the value under a key: a key of [region_order] (of [style_order]) whose look-up is
+   [None] stands for a nil pointer (nil Region, nil Style); for styles [Some None] is a Style whose InlineStyle is nil.
+   webvtt.go:491-565: the keys with a non-nil value are collected and sorted; per KEY the writer takes the value
+   s.Styles[key] / s.Regions[key] (the line of a region shows the ID field of that value, which need not be the key);
+   after the region lines one empty line is written when len(s.Regions) > 0, nil values included *)
 Definition write_vtt (d : vdoc) (style_order region_order : list str) : res str :=
   match vd_items d with
   | [] => Err ENothingToWrite
   | _ =>
     let styles := flat_map (fun id => match aget id (vd_styles d) with Some (Some l) => l | _ => [] end) (ssort style_order) in
-    (* regions are listed by their own ID, sorted, and looked up by that ID *)
-    let rids := ssort (map (fun k => match aget k (vd_regions d) with Some rg => rg_id rg | None => k end) region_order) in
     Ok (removelast (
       p_webvtt ++ (match vd_tsmap d with Some m => [10] ++ tsmap_string m | None => [] end) ++ [10;10] ++
       (match styles with [] => [] | _ => p_style ++ [10] ++ join [10] styles ++ [10;10] end) ++
-      concat (map (fun id => match aget id (vd_regions d) with Some rg => vregion_bytes rg | None => [] end) rids) ++
-      (match vd_regions d with [] => [] | _ => [10] end) ++
+      concat (map (fun k => match aget k (vd_regions d) with Some rg => vregion_bytes rg | None => [] end) (ssort region_order)) ++
+      (match region_order with [] => [] | _ => [10] end) ++
       vitems_bytes 0 (vd_items d)))
   end.
